@@ -267,7 +267,7 @@ class C02(Spec):
             for rep in range(3 * boost):
                 g = Gen(rng); t = 0; target = [100000, 30000, 50000][rep % 3]
                 if rep % 3 == 2:
-                    pool = probe_pool(rng, int(target * 1.2), 'end', 2417); g.new(t, 'P')
+                    pool = probe_pool(rng, int(target * 1.2), 'mult', 2417); g.new(t, 'P')   # (one giant cluster of this size would be quadratic)
                 else:
                     pool = int_pool(rng, int(target * 1.2), 2417, [0, 1, 2, LCM - 1])
                 for k in pool[:target]: g.set(t, k)
